@@ -5,7 +5,7 @@ from dlib import shake128, shake256
 RULE = ("histories = (absorb chunk)* finalize (squeeze n | squeezeblocks k)*: input lengths 0..3r+1 around every multiple of the rate r, random "
         "partitions into 1..6 absorb calls including empty ones, output split into requests of sizes {0,1,r-1,r,r+1,2r,2r+1,...} with squeezeblocks "
         "only at block boundaries (its documented precondition), both rates; absorb_once, one-shot shake256 for every output length class, "
-        "stream_init with nonces. The oracle is Python's hashlib SHAKE. Non-trivial = a history with a chunk or request crossing a block "
+        "stream_init with nonces, also on a state that was used before; the one-shot interface with an input buffer longer than inlen. The oracle is Python's hashlib SHAKE. Non-trivial = a history with a chunk or request crossing a block "
         "boundary; distinct (fn,ops).")
 ASSUMPTIONS = ["call patterns sampled; misaligned squeezeblocks calls are outside the function's documented contract and not generated"]
 TIMEOUT = {"quick": 400, "thorough": 2400}
@@ -47,6 +47,17 @@ def gen(tier, rng):
             seed = bytes(rng.randrange(256) for _ in range(64))
             slen = 32 if rate == 168 else 64
             out.append(Case(fn, "-", [6, seed, nonce, 3, 2], ["in_domain", "stream_init"], aux=(rate, seed[:slen] + nonce.to_bytes(2, "little"), [2 * rate])))
+        # stream_init on a state that was used before must give the same stream as on a fresh one
+        for nonce in (0, 513):
+            seed = bytes(rng.randrange(256) for _ in range(64))
+            d0 = bytes(rng.randrange(256) for _ in range(rng.choice([1, 50, rate, rate + 7])))
+            xof = shake256 if rate == 136 else shake128
+            slen = 32 if rate == 168 else 64
+            fresh = xof(seed[:slen] + nonce.to_bytes(2, "little"), 2 * rate)
+            out.append(Case(fn, "-", [0, d0, 1, 3, 1, 6, seed, nonce, 3, 2], ["in_domain", "stream_init", "reused-state", "crossing"],
+                            aux=(rate, "explicit", [xof(d0, rate), fresh])))
+            out.append(Case(fn, "-", [6, seed, nonce, 3, 1, 6, seed, nonce, 3, 2], ["in_domain", "stream_init", "reused-state", "crossing"],
+                            aux=(rate, "explicit", [fresh[:rate], fresh])))
         # init() restores the initial state
         d = bytes(rng.randrange(256) for _ in range(200))
         out.append(Case(fn, "-", [0, d, 1, 3, 1, 5, 0, d[:50], 1, 3, 1], ["in_domain", "init"], aux=(rate, None, None)))
@@ -54,6 +65,11 @@ def gen(tier, rng):
         for ilen in (0, 1, 135, 136, 137, 272, 300):
             inp = bytes(rng.randrange(256) for _ in range(ilen))
             out.append(Case("shake256", "-", [n, inp], ["in_domain", "oneshot"] + (["crossing"] if n > 136 else []), aux=(136, inp, [n])))
+    # one-shot interface with an input buffer longer than inlen: only inlen bytes may be read
+    for ilen in (0, 1, 33, 135, 136, 137, 272, 300):
+        for extra in (1, 7, 136, 250):
+            inp = bytes(rng.randrange(256) for _ in range(ilen + extra))
+            out.append(Case("shake256_inlen", "-", [64, inp, ilen], ["in_domain", "oneshot", "over-long-input", "crossing"], aux=(136, inp[:ilen], [64])))
     return out
 
 
@@ -64,6 +80,10 @@ def nontrivial(c, out):
 def oracle(c, outs):
     rate, data, reqs = c.aux
     if data is None:
+        return None
+    if data == "explicit":
+        if list(outs) != list(reqs):
+            return "stream_init on a previously used state does not give SHAKE(seed || nonce) (or the earlier output is wrong)"
         return None
     total = sum(reqs)
     stream = shake256(data, total) if rate == 136 else shake128(data, total)
